@@ -133,10 +133,12 @@ def conjuncts : Pred → List Pred
     derived the measurement expression: exactly one `_measurement` comparison among the
     top-level conjuncts, and that one an equality (fix C17-delete-measurement-neq-shortcut:
     before it any operator was taken, so `_measurement != x` deleted only up to `x`). -/
+def isMeasRule : Pred → Bool
+  | .rule k _ _ => k = DelPred.measurementKey
+  | _ => false
+
 def measNameOf (p : Pred) : Option Bytes :=
-  match (conjuncts p).filter (fun c => match c with
-      | .rule k _ _ => k = DelPred.measurementKey
-      | _ => false) with
+  match (conjuncts p).filter isMeasRule with
   | [.rule _ false v] => some v
   | _ => none
 
@@ -211,11 +213,11 @@ def FileEnt.deleteRange (f : FileEnt) (min max : Int) : FileEnt :=
 /-- range delete on one series (`sel` = it is among the series handed to `DeleteSeriesRange`):
     tombstones in every file, values cut from the cache; the series leaves the index iff no
     file has its key any more and the cache has no value for it -/
+def Series.cut (s : Series) (min max : Int) : Series :=
+  { s with files := s.files.map (·.deleteRange min max), cache := cutPts min max s.cache }
+
 def delSeries (sel : Bool) (min max : Int) (s : Series) : Option Series :=
-  if sel then
-    let s' : Series := { s with files := s.files.map (·.deleteRange min max), cache := cutPts min max s.cache }
-    if s'.listed then some s' else none
-  else some s
+  if sel then (if (s.cut min max).listed then some (s.cut min max) else none) else some s
 
 def Shard.delete (sh : Shard) (min max : Int) (pred : Option Pred) (mname : Option Bytes) : Shard :=
   let vis := visited sh mname
